@@ -196,10 +196,22 @@ theorem unsplicedMatch_shift (k : Int) (I : IsoInfo) : unsplicedMatch (shiftIsoI
 
 /-! ## `categorize_exon_elongation_subtype` -/
 
+/-- the exon measured by `categorize_exon_elongation_subtype` (outermost, or the next one behind a short fake terminal
+    exon) moves with the locus -/
+theorem measuredExon_shift (k : Int) (p : Params) (o : Iv) (nx : Option Iv) (s : Iv) :
+    measuredExon p (shiftIv k o) (nx.map (shiftIv k)) (shiftIv k s) = shiftIv k (measuredExon p o nx s) := by
+  have hl : interval_len (shiftIv k o) = interval_len o := by
+    simp only [interval_len, shiftIv]; omega
+  cases nx with
+  | none => rfl
+  | some n =>
+    simp only [measuredExon, Option.map_some, overlaps_shift, hl]
+    split <;> rfl
+
 theorem elongationEvents_shift (k : Int) (g : Gene) (p : Params) (rp : ReadProf) (I : IsoInfo) :
     elongationEvents (shiftGene k g) p (shiftReadProf k rp) (shiftIsoInfo k I) = elongationEvents g p rp I := by
   simp only [elongationEvents, shiftGene, shiftReadProf, shiftIsoInfo, shiftL_length, shiftL_head?, shiftL_getLast?,
-    pyGet?_shiftL]
+    pyGet?_shiftL, ← shiftL_reverse, shiftL_getElem?]
   split
   · rfl
   · split
@@ -216,8 +228,11 @@ theorem elongationEvents_shift (k : Int) (g : Gene) (p : Params) (rp : ReadProf)
               (List.drop (max I.splitRange.1 rp.split.range.1).toNat rp.split.gene) (max I.splitRange.1 rp.split.range.1)) <;>
             cases pyGet? g.splitExons cl <;> simp only [Option.map_none, Option.map_some]
           rename_i fr lr sf sl
-          have a1 : sf.1 + k - (fr.1 + k) = sf.1 - fr.1 := by omega
-          have a2 : lr.2 + k - (sl.2 + k) = lr.2 - sl.2 := by omega
+          simp only [measuredExon_shift]
+          generalize measuredExon p fr rp.blocks[1]? sf = fr'
+          generalize measuredExon p lr rp.blocks.reverse[1]? sl = lr'
+          have a1 : sf.1 + k - (fr'.1 + k) = sf.1 - fr'.1 := by omega
+          have a2 : lr'.2 + k - (sl.2 + k) = lr'.2 - sl.2 := by omega
           simp only [overlaps_shift, shiftIv_fst, shiftIv_snd, a1, a2]
           rfl
 
